@@ -12,6 +12,7 @@ class C12(LoopCheck):
     pid = "C12"
     props = {"C12"}
     flows = ("cadence", "resume")
+    adaptive_N3 = ()
     required_labels = ["c12/cadence", "c12/payload_current", "c12/file_is_latest_payload", "c12/blob_length", "c12/blob_content"]
 
     def configs(self, tier):
